@@ -155,3 +155,16 @@ pub fn run(w: &[&str]) -> String {
     let f = match first { Some(x) => format!("{:x}", x), None => "-".into() };
     format!("blk h={:016x} bad={} first={}", h.0, bad, f)
 }
+
+
+/// `fnarrow <f64 bits hex>…`: `f64 as f32` (what serde's f32 visitor does with a buffered f64): the f32 bits, joined by `,`.
+pub fn run_narrow(w: &[&str]) -> String {
+    let mut out = Vec::new();
+    for a in w {
+        match u64::from_str_radix(a, 16) {
+            Ok(b) => out.push(format!("{:08x}", (f64::from_bits(b) as f32).to_bits())),
+            Err(_) => return "bad-op".into()
+        }
+    }
+    if out.is_empty() { "bad-op".into() } else { out.join(",") }
+}
